@@ -54,6 +54,10 @@ type genOpts struct {
 	extraWeight    bool // allow a superfluous weight entry where the method accepts it
 	anchorZeroCoef bool // anchoring alternatives with coefficient 0 / without a coefficient next to weighted ones
 	plainIds       bool // never generate ids that differ only in case
+	dupChosen      bool // choseToMake sometimes names an alternative twice (it is still considered once, at its first position)
+	blankId        bool // sometimes one alternative is called " " (a legal, if odd, id)
+	caseCrit       bool // sometimes two criteria ids differ only in case ("c1" / "C1")
+	zeroW          bool // sometimes one weight is exactly 0
 	vetoHeavy      bool // ELECTRE: every criterion has q, p and v (several discordant criteria per pair)
 	decimalW       bool // weights are multiples of 0.1: sums that are equal mathematically differ by a few ulps in float64
 	nearTiedW      bool // weights differ by 1e-7 only (distinct, but inside any "reasonable" epsilon)
@@ -160,6 +164,9 @@ func genRequest(r *rand.Rand, o genOpts) *genReq {
 	ids := make([]string, nc)
 	for i := 0; i < nc; i++ {
 		ids[i] = fmt.Sprintf("c%d", i)
+		if o.caseCrit && i >= 1 && method != "choquetIntegral" && r.Intn(10) == 0 && strings.ToUpper(ids[i-1]) != ids[i-1] {
+			ids[i] = strings.ToUpper(ids[i-1])
+		}
 		cs := critSpec{id: ids[i]}
 		t := "gain"
 		if !o.gainOnly && method != "choquetIntegral" && method != "owa" && r.Intn(3) == 0 {
@@ -185,7 +192,9 @@ func genRequest(r *rand.Rand, o genOpts) *genReq {
 	var base map[string]float64
 	for i := 0; i < na; i++ {
 		g.altIds[i] = fmt.Sprintf("a%d", i)
-		if i >= 1 && !o.plainIds && r.Intn(16) == 0 {
+		if o.blankId && i == na-1 && r.Intn(10) == 0 {
+			g.altIds[i] = " "
+		} else if i >= 1 && !o.plainIds && r.Intn(16) == 0 {
 			g.altIds[i] = strings.ToUpper(g.altIds[i-1]) // "A3" next to "a3": distinct ids that differ only in case
 			if strings.ToUpper(g.altIds[i-1]) == g.altIds[i-1] {
 				g.altIds[i] = fmt.Sprintf("a%d", i)
@@ -229,6 +238,11 @@ func genRequest(r *rand.Rand, o genOpts) *genReq {
 		chose[i] = g.altIds[perm[i]]
 		g.chose = append(g.chose, g.altIds[perm[i]])
 	}
+	if o.dupChosen && r.Intn(8) == 0 {
+		j := r.Intn(k)
+		pos := j + 1 + r.Intn(k-j)
+		chose = append(chose[:pos], append([]interface{}{chose[j]}, chose[pos:]...)...)
+	}
 	mp := M{}
 	w := M{}
 	used := map[float64]bool{}
@@ -261,6 +275,9 @@ func genRequest(r *rand.Rand, o genOpts) *genReq {
 		}
 		used[x] = true
 		w[id] = x
+	}
+	if o.zeroW && len(ids) >= 2 && r.Intn(8) == 0 {
+		w[ids[r.Intn(len(ids))]] = 0.0
 	}
 	switch method {
 	case "weightedSum":
